@@ -39,7 +39,14 @@ func (db *DB) NewBatch(options BatchOptions) *Batch {
 	if err != nil {
 		panic(fmt.Sprintf("snowflake.NewNode(1) failed: %v", err))
 	}
-	batch.batchID = node.Generate()
+	// 批次 ID 由当前时间生成: 系统时钟回拨后, 新 ID 可能与日志中残留的未完成批次的 ID 相同,
+	// 新批次的完成标识会使这些残留记录在下次重启时生效. 保证新 ID 大于日志中出现过的所有批次 ID
+	id := uint64(node.Generate())
+	if id <= db.seqNo {
+		id = db.seqNo + 1
+	}
+	db.seqNo = id
+	batch.batchID = snowflake.ID(id)
 	return batch
 }
 
